@@ -4,6 +4,12 @@ from .. import udcommon
 
 def run(ctx):
     ctx.rule = udcommon.RULE
+    # balance() for UNBOUNDED sizes: an inductive invariant discharged by Apalache (Init => IndInv; IndInv /\ Next => IndInv'),
+    # of which EvenFill is a consequence; TLC checks the same machine from every vector in (0..3)^4 and that its result is
+    # the Balance operator the rest of the specification (and the replay) uses
+    ctx.tlc("MCBalanceInd", "MC_BalanceInd.cfg", workers=8, timeout=900)
+    ctx.apalache("BalanceInd", "Init", "IndInv", 0)
+    ctx.apalache("BalanceInd", "IndInit", "IndInv", 1)
     udcommon.run(ctx, "C08-", 60 if ctx.quick else 600)
     ctx.assumptions = ["references of the topranking vectors are A/C/G/T (as the statement says); updown list is also run on IUPAC references",
                        "--threshold-pair values are multiples of 1/4 (exact in float32); either --dist-all or all three per-bin limits are given",
